@@ -7,7 +7,8 @@
   The theorems say that the hand model `S2.CellM` computes the same float expressions and branches on the same
   tests in the same order: `edgeDistance`, `vertexChordDist2`, `uEdgeIsClosest`, `vEdgeIsClosest`, the four sign
   tests / the edge arguments / the branch order of `distanceInternal`, and the expansion constant of
-  `Cell.ContainsPoint`.  All proofs are `rfl`.
+  `Cell.ContainsPoint`, and the margin constant `edgeIsClosestMargin = 32 * dblError` of the two tangential tests
+  (repair D58).  All proofs are `rfl` / `decide`.
 -/
 import S2.CellM
 import S2.Generated.CellDistFns
@@ -93,6 +94,18 @@ theorem tie_containsPoint (c : Cell) (p : V3) :
 
 /-- the margin of the model (`2 * dblEpsilon`, a run-time-free constant expression) is the constant the compiler folds -/
 theorem tie_containsMargin : CellM.containsMargin.bits = CellDistFns.ContainsPoint_margin_bits := by decide
+
+/-- the margin of the tangential tests (repair D58): the model constant is the float64 of `const edgeIsClosestMargin`
+    (s2/cell.go) as the Go type checker evaluates it -/
+theorem tie_edgeIsClosestMargin : CellM.edgeIsClosestMargin.bits = CellDistFns.edgeIsClosestMargin_bits := by decide
+
+/-- `edgeIsClosestMargin = 32 * dblError`: the untyped constant product rounds to the same float64 as the run-time product
+    `32 · float64(dblError)` (a power-of-two factor); `dblError` is the decimal literal of s2/predicates.go, NOT 2^-53 -/
+theorem tie_edgeIsClosestMargin_product :
+    CellM.edgeIsClosestMargin = F64.mul ⟨0x4040000000000000⟩ ⟨CellDistFns.dblError_bits⟩ := by decide +kernel
+
+/-- `-edgeIsClosestMargin` (the bound of the second test) is the sign-flipped bit pattern -/
+theorem tie_edgeIsClosestMargin_neg : (-CellM.edgeIsClosestMargin : F64) = ⟨0xbceffffffffffffc⟩ := by decide
 
 theorem tie_distance (c : Cell) (t : V3) : distance c t = distanceInternal c t true ∧ boundaryDistance c t = distanceInternal c t false :=
   ⟨rfl, rfl⟩
